@@ -268,6 +268,40 @@ namespace
           }
   }
 
+  // ---- family 7: 'tian water content' compositions (temperature and pressure dependent) over extreme temperatures and pressure cut-offs ----
+  void family_water(std::vector<WCase> &out)
+  {
+    const char *LITH[] = {"sediment", "MORB", "gabbro", "peridotite"};
+    struct TM { const char *name; const char *area; const char *slab; };
+    const std::vector<TM> tms =
+    {
+      {"uniform 0 K", "{\"model\":\"uniform\",\"temperature\":0}", "{\"model\":\"uniform\",\"temperature\":0}"},
+      {"uniform 1e-300 K", "{\"model\":\"uniform\",\"temperature\":1e-300}", "{\"model\":\"uniform\",\"temperature\":1e-300}"},
+      {"uniform 1e5 K", "{\"model\":\"uniform\",\"temperature\":1e5}", "{\"model\":\"uniform\",\"temperature\":1e5}"},
+      {"cooling model", "{\"model\":\"plate model\",\"max depth\":1e5,\"spreading velocity\":0.05,\"ridge coordinates\":[[[-5e5,-1e6],[-5e5,1e6]]]}", "{\"model\":\"mass conserving\",\"density\":3300,\"spreading velocity\":0.05,\"subducting velocity\":0.05,\"ridge coordinates\":[[[-5e5,-1e6],[-5e5,1e6]]]}"},
+      {"no temperature model", "", ""},
+    };
+    for (int slab = 0; slab < 2; ++slab) for (int il = 0; il < 4; ++il) for (auto &tm : tms) for (double cutoff : {10.0, 0.0, 1e4}) for (double density : {3000.0, 0.0})
+              {
+                if (density == 0 && cutoff != 10.0) continue;
+                WCase w; w.sph = false; w.has_cs = false;
+                w.family = std::string("water content/") + (slab ? "subducting plate/" : "oceanic plate/") + LITH[il] + "/" + tm.name + "/cutoff pressure " + num(cutoff) + (density == 0 ? "/density 0" : "");
+                const std::string wm = std::string("{\"model\":\"tian water content\",\"compositions\":[0],\"lithology\":\"") + LITH[il] + "\",\"initial water content\":3,\"cutoff pressure\":" + num(cutoff) + ",\"density\":" + num(density) + "}";
+                const std::string t = slab ? tm.slab : tm.area;
+                std::string feat;
+                if (slab)
+                  feat = "{\"model\":\"subducting plate\",\"name\":\"S\",\"coordinates\":[[0,-3e5],[0.5e5,0],[0,3e5]],\"dip point\":[9e5,0],\"segments\":[{\"length\":4e5,\"thickness\":[1e5],\"angle\":[45]}],"
+                         + (t.empty() ? std::string() : "\"temperature models\":[" + t + "],") + "\"composition models\":[" + wm + "]}";
+                else
+                  feat = "{\"model\":\"oceanic plate\",\"name\":\"O\",\"max depth\":1e5,\"coordinates\":[[-4e5,-4e5],[4e5,-4e5],[4e5,4e5],[-4e5,4e5]],"
+                         + (t.empty() ? std::string() : "\"temperature models\":[" + t + "],") + "\"composition models\":[" + wm + "]}";
+                w.text = world(coord(false), {feat});
+                for (double x : {-3e5, 0.0, 0.25e5, 1e5, 2e5, 3.5e5}) for (double y : {0.0, 1.7e5}) for (double d : {0.0, 1.0, 1e3, 1.7e4, 5e4, 1e5, 2e5, 3e5})
+                      w.pts.push_back({x, y, d, false, {{0,0,0}}, "across the hydrated feature"});
+                out.push_back(w);
+              }
+  }
+
   void run_world(const std::shared_ptr<std::vector<WCase>> &cases, uint64_t idx, Ctx &ctx)
   {
     static const int c_q = Ctx::counter_id("queries"), c_ex = Ctx::counter_id("queries_refused_with_exception"), c_rej = Ctx::counter_id("worlds_rejected_at_construction"), c_2d = Ctx::counter_id("queries_2d");
@@ -351,9 +385,10 @@ int main(int argc, char **argv)
     family_cs(*cases);
     family_polar(*cases);
     family_zero_parameters(*cases);
+    family_water(*cases);
     std::vector<Suite> s(1);
     s[0].name = "worlds"; s[0].n = cases->size(); s[0].run = [cases](uint64_t i, Ctx &c) { run_world(cases, i, c); };
-    s[0].bound = std::to_string(cases->size()) + " worlds (rich 6, line features " + (th ? "full" : "reduced") + " product of 12 segment tables x thermal models x {slab,fault} x {cartesian,spherical}, 18 degenerate area/plume set-ups, 2 degenerate cross sections, 10 slabs/faults next to a pole queried on and around the rotation axis, 32 mass conserving slabs with zero / extreme optional parameters)";
+    s[0].bound = std::to_string(cases->size()) + " worlds (rich 6, line features " + (th ? "full" : "reduced") + " product of 12 segment tables x thermal models x {slab,fault} x {cartesian,spherical}, 18 degenerate area/plume set-ups, 2 degenerate cross sections, 10 slabs/faults next to a pole queried on and around the rotation axis, 32 mass conserving slabs with zero / extreme optional parameters, 160 hydrated plates / slabs: 4 lithologies x 5 temperature settings incl. 0 K x pressure cut-offs {10, 0, 1e4} GPa, density {3000, 0})";
     return s;
   });
 }
